@@ -202,31 +202,39 @@ Definition c17_ref_decided (c : c17case) : N :=
 (* all (offset, is_jump_fault) at which the reference EVM faults when both outcomes of every JUMPI are explored:
    is_jump_fault = a JUMP / taken JUMPI with enough operands and a bad destination; otherwise a stack fault.
    None: budget exhausted (loops) or outside the oracle. *)
-Fixpoint ref_faults (code : list byte) (fuel : nat) (work : list estate) (acc : list (N * bool)) : option (list (N * bool)) :=
+Fixpoint ref_faults_w (code : list byte) (fuel : nat) (work : list (estate * list N)) (acc : list (N * bool))
+  : option (list (N * bool)) :=
   match fuel with
   | O => match work with [] => Some acc | _ => None end
   | S f =>
       match work with
       | [] => Some acc
-      | s :: rest =>
+      | (s, seen) :: rest =>
           match byte_at code (e_pc s) with
-          | None => ref_faults code f rest acc
+          | None => ref_faults_w code f rest acc
           | Some b =>
+              (* the same instruction twice on one path: a loop; the symbolic machine cuts loops by its visit limit, the
+                 reference does not -- undecided *)
+              if existsb (N.eqb (e_pc s)) seen then None else
+              let seen' := e_pc s :: seen in
               let r1 := estep code false s in
               if is_beyond r1 then None
               else
                 let depth := N.of_nat (length (e_stack s)) in
                 let acc1 := if is_fault r1 then (e_pc s, (b =? 86) && (1 <=? depth)) :: acc else acc in
+                let next := fun r => map (fun x => (x, seen')) (succs r) in
                 if b =? 87 then
                   let r2 := estep code true s in
                   if is_beyond r2 then None
                   else
                     let acc2 := if is_fault r2 && negb (is_fault r1) then (e_pc s, 2 <=? depth) :: acc1 else acc1 in
-                    ref_faults code f (succs r2 ++ succs r1 ++ rest) acc2
-                else ref_faults code f (succs r1 ++ rest) acc1
+                    ref_faults_w code f (next r2 ++ next r1 ++ rest) acc2
+                else ref_faults_w code f (next r1 ++ rest) acc1
           end
       end
   end.
+Definition ref_faults (code : list byte) (fuel : nat) (work : list estate) (acc : list (N * bool)) : option (list (N * bool)) :=
+  ref_faults_w code fuel (map (fun s => (s, [])) work) acc.
 
 Definition stack_err_idx (k : N) : bool := (k =? 1) || (k =? 2).
 
@@ -283,3 +291,29 @@ Definition c03_gas_code (c : vcase) : N :=
   end.
 
 Definition check_c03g (c : vcase) : N := match c03_gas_code c with 0 => check_c03 c | n => n end.
+
+
+(* loop-aware form of code 38 (bad_jump_reachable above explores loops for as long as its fuel lasts, which the symbolic
+   machine's visit limit does not): decided through ref_faults, undecided as soon as a path repeats an instruction *)
+Definition c17_ref_code_lf (c : c17case) : N :=
+  match k_strict c with
+  | XRun ok1 _ _ _ _ _ _ =>
+      if ok1 && generous (k_lim c) then
+        match ref_faults (k_code c) (64 * length (k_code c) + 64)%nat [e_init] [] with
+        | Some fs => if existsb (fun f : N * bool => snd f) fs then 38 else 0
+        | None => 0
+        end
+      else 0
+  | _ => 0
+  end.
+Definition check_c17r3 (c : c17case) : N :=
+  match c17_ref_faults_code c with
+  | 0 => match c17_ref_code_lf c with 0 => check_c17 c | n => n end
+  | n => n
+  end.
+Definition c17_ref_decided_lf (c : c17case) : N :=
+  if generous (k_lim c) then
+    match ref_faults (k_code c) (64 * length (k_code c) + 64)%nat [e_init] [] with
+    | Some fs => if existsb (fun f : N * bool => snd f) fs then 2 else 1
+    | None => 0 end
+  else 0.
